@@ -6,9 +6,12 @@ import (
 	"strconv"
 	"strings"
 	"sync"
+	"sync/atomic"
 	"time"
 
 	"verifharness/hx"
+
+	"github.com/iotaledger/hive.go/runtime/workerpool"
 )
 
 // result of one executed case: the request lines with the Go-side answers, oracle failures, statistics.
@@ -293,6 +296,64 @@ func runSched(name string) *result {
 	r.lines = append(r.lines, [2]string{"sched " + name, out})
 	r.count("sched:" + name)
 	r.nontriv = "sched:" + name
+
+	return r
+}
+
+// runHammer: "hammer ROUNDS SEED" — thousands of fresh pools, each: Start; Shutdown; Start (right after the shutdown,
+// before the goroutines of the first run may even have been scheduled); 20 Submits; Shutdown; ShutdownComplete.Wait.
+// Judged by conservation (every Submit accepted; each task run exactly once, or — cancel-on-shutdown — at most once
+// with the counter back at zero) and termination.  A broken restart typically panics inside the pool's own
+// goroutines: the harness runs every case in a child process, a dead child is the finding `crash` of this line.
+func runHammer(line string) *result {
+	r := newResult()
+	r.lines = append(r.lines, [2]string{line, "ok"})
+	f := strings.Fields(line)
+	rounds := 1000
+	if len(f) > 1 {
+		rounds, _ = strconv.Atoi(f[1])
+	}
+	const tasks = 20
+	for i := 0; i < rounds; i++ {
+		w, cancel := 1+i%4, (i/4)%2 == 1
+		pool := workerpool.New("hammer", workerpool.WithWorkerCount(w), workerpool.WithCancelPendingTasksOnShutdown(cancel),
+			workerpool.WithPanicOnSubmitAfterShutdown(true))
+		bad := func(oracle, detail string, sig map[string]string) *result {
+			sig["mode"] = "hammer"
+			r.fail(oracle, fmt.Sprintf("round %d (workers=%d cancel=%v): %s", i, w, cancel, detail), sig)
+
+			return r
+		}
+		pool.Start()
+		pool.Shutdown()
+		if !within(bound, func() { pool.Start() }) {
+			return bad("termination", "Start right after Shutdown did not return", classifyPool(pool, "start"))
+		}
+		var runs [tasks]atomic.Int32
+		for j := 0; j < tasks; j++ {
+			if p := hx.Safely(func() { pool.Submit(func() { runs[j].Add(1) }) }); p != "" {
+				return bad("conservation", "Submit on the restarted pool was rejected: "+p,
+					map[string]string{"api": "workerpool.Start", "effect": "restarted-pool-rejects"})
+			}
+		}
+		pool.Shutdown()
+		t0 := time.Now()
+		if !withinPool(pool, func() time.Duration { return time.Since(t0) }, bound, pool.ShutdownComplete.Wait) {
+			return bad("termination", "ShutdownComplete.Wait did not return", classifyPool(pool, "complete"))
+		}
+		for j := 0; j < tasks; j++ {
+			if n := runs[j].Load(); n > 1 || (!cancel && n != 1) {
+				return bad("run-once", fmt.Sprintf("accepted task %d ran %d times", j, n),
+					map[string]string{"api": "workerpool", "effect": "task-run-count"})
+			}
+		}
+		if v := pool.PendingTasksCounter.Get(); v != 0 {
+			return bad("quiescence", fmt.Sprintf("pending counter is %d after completion", v),
+				map[string]string{"api": "workerpool", "effect": "not-quiescent"})
+		}
+	}
+	r.counts["hammer-rounds"] += rounds
+	r.nontriv = line
 
 	return r
 }
